@@ -65,6 +65,62 @@ fn s_values(t: &mut Tape, ctx: &mut Ctx) -> Result<(), Failure> {
         }
         None => (0..4).map(|_| valgen::gen_val(t, &ty)).collect(),
     };
+    {
+        // classes named by the property's quantifier
+        let mut flags: Vec<&'static str> = vec![];
+        fn walk(ty: &Ty, flags: &mut Vec<&'static str>) {
+            match ty.resolved_head() {
+                Ty::UInt(b) if *b < 8 => flags.push("class:sub-byte-integer"),
+                Ty::UInt(b) if *b >= 128 => flags.push("class:u128-u256"),
+                Ty::Array(e, n) => {
+                    if matches!(e.resolved_head(), Ty::UInt(8)) {
+                        flags.push("class:byte-array");
+                        if *n == 0 {
+                            flags.push("class:empty-byte-array");
+                        }
+                    }
+                    if *n == 0 {
+                        flags.push("class:empty-array");
+                    }
+                    if *n == 1 {
+                        flags.push("class:singleton-array");
+                    }
+                    if matches!(e.resolved_head(), Ty::Array(i, _) if matches!(i.resolved_head(), Ty::UInt(8))) {
+                        flags.push("class:nested-byte-array");
+                    }
+                    walk(e, flags);
+                }
+                Ty::List(e, _) => {
+                    flags.push("class:list");
+                    walk(e, flags);
+                }
+                Ty::Tuple(ts) => {
+                    if ts.is_empty() {
+                        flags.push("class:unit");
+                    }
+                    if ts.len() == 1 {
+                        flags.push("class:singleton-tuple");
+                    }
+                    ts.iter().for_each(|x| walk(x, flags));
+                }
+                Ty::Option(a) => walk(a, flags),
+                Ty::Either(a, b) => {
+                    walk(a, flags);
+                    walk(b, flags);
+                }
+                _ => {}
+            }
+        }
+        walk(&ty, &mut flags);
+        if vals.iter().any(|v| matches!(v, Val::List(x) if x.is_empty())) {
+            flags.push("class:empty-list-value");
+        }
+        flags.sort();
+        flags.dedup();
+        for f in flags {
+            ctx.label(f);
+        }
+    }
     for v in &vals {
         value_roundtrip(v, &ty, ctx)?;
         if nontrivial_value(v, &ty) {
